@@ -8,7 +8,9 @@ package main
 
 import (
 	"encoding/hex"
+	"encoding/json"
 	"fmt"
+	wasmvmtypes "github.com/CosmWasm/wasmvm/types"
 	"math/big"
 	"math/rand"
 	"reflect"
@@ -368,7 +370,11 @@ func runMsgs(seed int64, histories, steps int, out *Emitter) {
 					}
 				}()
 				cctx, write := c.Ctx().CacheContext()
-				if err := wasmbinding.PerformPostFile(&c.A.StorageKeeper, cctx, contract, pf); err != nil {
+				// the real entry point: the custom messenger decodes the contract's JSON message and dispatches it
+				// (the wasm module commits what a dispatch that returns no error wrote)
+				custom, _ := json.Marshal(map[string]interface{}{"post_file": pf})
+				messenger := wasmbinding.CustomMessageDecorator(&c.A.FileTreeKeeper, &c.A.StorageKeeper)(nil)
+				if _, _, err := messenger.DispatchMsg(cctx, contract, "", wasmvmtypes.CosmosMsg{Custom: custom}); err != nil {
 					okc, errs = false, err.Error()
 				} else {
 					write()
